@@ -27,7 +27,7 @@ LEVEL_NOTE = "trusted: the naive reference graph (BFS over explicit parent sets)
 
 def runs(tier, seed):
     if tier == "thorough":
-        return [Run("txgraph", cases=150000, params={"ops": 200}, timeout=3400)]
+        return [Run("txgraph", cases=20000, params={"ops": 200}, timeout=3400)]
     return [Run("txgraph", cases=3000, params={"ops": 150}, timeout=900)]
 
 
